@@ -1,2 +1,2 @@
-/- C13 — theorems are being added. -/
-import DsdVerif.Gen.Grammars
+/- C13 — PIL grammar round trips: theorems are in Props/C13Pil.lean. -/
+import DsdVerif.Props.C13Pil
